@@ -209,14 +209,33 @@ func collectExprDeps(e Expr, locals map[string]bool, add func(string)) {
 	}
 }
 
-// collectBlockDeps extracts dependencies from a block statement.
+// collectBlockDeps extracts dependencies from a block statement. Declarations
+// made inside the block go out of scope at its end: they must not hide a
+// module-scope name that is referenced after the block.
 func collectBlockDeps(block *BlockStmt, locals map[string]bool, add func(string)) {
 	if block == nil {
 		return
 	}
-	for _, s := range block.Statements {
-		collectStmtDeps(s, locals, add)
+	collectBlockDepsIn(block, cloneLocals(locals), add)
+}
+
+// collectBlockDepsIn walks the statements of a block in the given scope.
+func collectBlockDepsIn(block *BlockStmt, scope map[string]bool, add func(string)) {
+	if block == nil {
+		return
 	}
+	for _, s := range block.Statements {
+		collectStmtDeps(s, scope, add)
+	}
+}
+
+// cloneLocals returns a copy of the set of local names (a new scope).
+func cloneLocals(locals map[string]bool) map[string]bool {
+	scope := make(map[string]bool, len(locals)+4)
+	for k, v := range locals {
+		scope[k] = v
+	}
+	return scope
 }
 
 // collectStmtDeps extracts identifier references from a statement.
@@ -253,6 +272,8 @@ func collectStmtDeps(s Stmt, locals map[string]bool, add func(string)) {
 	case *BlockStmt:
 		collectBlockDeps(s, locals, add)
 	case *ForStmt:
+		// The init declaration is in scope for the condition, update and body only.
+		locals = cloneLocals(locals)
 		if s.Init != nil {
 			collectStmtDeps(s.Init, locals, add)
 		}
@@ -267,8 +288,10 @@ func collectStmtDeps(s Stmt, locals map[string]bool, add func(string)) {
 		collectExprDeps(s.Condition, locals, add)
 		collectBlockDeps(s.Body, locals, add)
 	case *LoopStmt:
-		collectBlockDeps(s.Body, locals, add)
-		collectBlockDeps(s.Continuing, locals, add)
+		// The continuing block sees the declarations of the loop body.
+		scope := cloneLocals(locals)
+		collectBlockDepsIn(s.Body, scope, add)
+		collectBlockDeps(s.Continuing, scope, add)
 	case *SwitchStmt:
 		collectExprDeps(s.Selector, locals, add)
 		for _, c := range s.Cases {
